@@ -44,8 +44,19 @@ def build(t, seed):
         return W.fields[0].data_type, W.fields[0], W
 
 def pickle_diff(x):
-    y = pickle.loads(pickle.dumps(x))
     d = []
+    ys = []
+    for proto in range(pickle.HIGHEST_PROTOCOL + 1):      # every protocol, not only the default one
+        try:
+            ys.append(pickle.loads(pickle.dumps(x, protocol=proto)))
+        except Exception as ex:
+            d.append("pickling with protocol %d failed: %s: %s" % (proto, type(ex).__name__, str(ex)[:80]))
+    for y in ys[:-1]:
+        if not (y == x) or hash(y) != hash(x) or str(y) != str(x):
+            d.append("a pickled copy (older protocol) differs")
+    if not ys:
+        return d
+    y = ys[-1]
     if not (y == x and x == y):
         d.append("pickled copy compares unequal")
     if hash(y) != hash(x):
